@@ -198,6 +198,33 @@ def check_case(ctx: Ctx, case) -> None:
             continue
         _same(ctx, f"variant-{name}", base, base_obs, other, rc)
         ctx.classes[f"variant_{name}"] += 1
+    # (c') characters that str.splitlines() also treats as line ends (VT, FF, FS, GS, RS, NEL, LS, PS) inside a
+    # [Song] value, a global event text and a track-event word.  What such a file MEANS is not asserted (that is
+    # a matter of what a line is), only the statement's own relation: LF and CRLF renderings of it parse alike
+    hb = core.h64(text) >> 9
+    if hb % 4 == 0:
+        ch = "\x0b\x0c\x1c\x1d\x1e\x85\u2028\u2029"[(hb >> 3) % 8]
+        bsecs = []
+        for n, b in secs:
+            b = list(b)
+            if n == "Song":
+                b.append(f'Name = "Side A{ch}Side B"')
+            elif n == "Events":
+                b.insert(0, f'0 = E "lyric la{ch}la"')
+            elif n in S.HEADERS and b:
+                b.append(b[-1].split(" ", 1)[0] + f" = E so{ch}lo")
+            bsecs.append((n, b))
+        outs = []
+        for nl_ in ("\n", "\r\n"):
+            try:
+                outs.append(("ok", observation(L.Chart.from_file(io.StringIO(S.render_sections(bsecs, newline=nl_), newline="")))))
+            except Exception as e:  # noqa: BLE001
+                outs.append(("raises", type(e).__name__))
+        if outs[0] != outs[1]:
+            d = diff_paths(outs[0][1], outs[1][1]) if outs[0][0] == outs[1][0] == "ok" else [outs[0][:1] + outs[1][:1]]
+            ctx.fail("variant-crlf-stringio", f"a file containing {ch!r} parses differently with LF and with CRLF line "
+                                              f"ends: {d}", dict(rc, char=ch))
+        ctx.classes["lf_crlf_with_other_line_boundary_chars"] += 1
     # (e) unknown sections
     unknown = case.get("unknown") or []
     if unknown:
